@@ -23,7 +23,7 @@ from vlib import ROOT, log
 class Engine:
     def __init__(self, name, c_srcs, ml_srcs, gen, wraps=(), n_quick=2000, n_thorough=50000,
                  variant="asan", ml_packages=(), sep=";", extra_cflags=(), timeout=1500,
-                 search_factor=2, libs=("-lpthread",), env=None):
+                 search_factor=2, libs=("-lpthread",), env=None, per_case=False):
         self.name = name
         self.c_srcs = c_srcs
         self.ml_srcs = ml_srcs
@@ -39,6 +39,7 @@ class Engine:
         self.search_factor = search_factor
         self.libs = libs
         self.env = env
+        self.per_case = per_case
 
 
 class Property:
@@ -76,7 +77,7 @@ def run_engine(prop, eng, cases, workdir, tag):
     implout = os.path.join(workdir, "%s-%s.impl" % (eng.name, tag))
     verd = os.path.join(workdir, "%s-%s.verdict" % (eng.name, tag))
     impl_bin = vlib.build_harness(eng.name, eng.c_srcs, eng.variant, eng.wraps, eng.extra_cflags, eng.libs)
-    monitors = vlib.run_impl(impl_bin, casefile, implout, len(cases), timeout=eng.timeout, env_extra=eng.env)
+    monitors = vlib.run_impl(impl_bin, casefile, implout, len(cases), timeout=eng.timeout, env_extra=eng.env, per_case=eng.per_case)
     ml_bin = vlib.build_ml(eng.name, eng.ml_srcs, eng.ml_packages)
     text = vlib.run_model(ml_bin, casefile, implout, verd, timeout=eng.timeout)
     classes, diffs, fails, stats = vlib.parse_verdicts(text)
@@ -182,16 +183,24 @@ def _check(prop, tier, seed, replay, t0, workdir, known, violations, broken):
         return 0
 
     # ---------------- obligations ----------------
-    targets = [prop.properties_v[:-2] + ".vo"] + list(prop.coq_targets)
+    pfiles = prop.properties_v if isinstance(prop.properties_v, (list, tuple)) else [prop.properties_v]
+    targets = [pf[:-2] + ".vo" for pf in pfiles] + list(prop.coq_targets)
     ok_make, mklog = vlib.coq_make(targets)
-    ok_prop, thms, assum, plog = (False, [], {}, "")
+    ok_prop, thms, assum, plog = (True, [], {}, "")
     try:
-        if ok_make:
-            ok_prop, thms, assum, plog = vlib.coq_check_properties(prop.properties_v)
-        else:
-            src = open(os.path.join(vlib.COQ, prop.properties_v)).read()
-            thms = re.findall(r"^\s*Theorem\s+([A-Za-z0-9_']+)", src, re.M)
+        for pf in pfiles:
+            if ok_make:
+                ok1, thms1, assum1, plog1 = vlib.coq_check_properties(pf)
+                ok_prop = ok_prop and ok1
+                thms += thms1
+                assum.update(assum1)
+                plog += plog1
+            else:
+                ok_prop = False
+                src = open(os.path.join(vlib.COQ, pf)).read()
+                thms += re.findall(r"^\s*Theorem\s+([A-Za-z0-9_']+)", src, re.M)
     except Exception as e:
+        ok_prop = False
         plog = str(e)
     forbidden = vlib.coq_forbidden()
     discharged = 0
@@ -219,14 +228,14 @@ def _check(prop, tier, seed, replay, t0, workdir, known, violations, broken):
         if not errs:
             broken.append("coq build failed: " + mklog[-600:].replace("\n", " "))
     elif not ok_prop:
-        broken.append("obligations file %s no longer checks: %s" % (prop.properties_v, plog[-600:].replace("\n", " ")))
+        broken.append("obligations file %s no longer checks: %s" % (",".join(pfiles), plog[-600:].replace("\n", " ")))
     if forbidden:
         broken.append("forbidden constructs: " + "; ".join(forbidden[:5]))
     for d in dirty:
         broken.append("assumptions not clean: " + d)
     obligations = len(thms)
     if obligations == 0:
-        broken.append("no Theorem found in " + prop.properties_v)
+        broken.append("no Theorem found in " + ",".join(pfiles))
 
     # ---------------- correspondence ----------------
     rng = random.Random(seed)
@@ -363,7 +372,7 @@ def _check(prop, tier, seed, replay, t0, workdir, known, violations, broken):
         assumptions=prop.assumptions,
         coverage=dict(
             obligations=max(obligations, 0), discharged=discharged,
-            checker_cmd="coq_makefile/make (coqc 8.16.1, full .vo) on coq/%s and dependencies; Print Assumptions per theorem" % prop.properties_v,
+            checker_cmd="coq_makefile/make (coqc 8.16.1, full .vo) on coq/{%s} and dependencies; Print Assumptions per theorem" % ",".join(pfiles),
             trusted_base=prop.trusted_base,
             theorems=thms, print_assumptions=assum,
             broken=broken,
